@@ -1188,7 +1188,68 @@ def val_genreuse(ctx: Ctx) -> RuleResult:
     return r
 
 
+def _stable_type(t: tuple) -> Optional[bool]:
+    """True: text that is the same in every process (str / int); False: an object whose text is its repr; None: unknown."""
+    if not t:
+        return None
+    if t[0] in ("str", "int", "bool"):
+        return True
+    if t[0] == "union":
+        parts = [_stable_type(x) for x in t[1]]
+        if any(x is False for x in parts):
+            return False
+        return True if all(x is True for x in parts) else None
+    if t[0] in ("callable", "cls", "inst", "func", "type", "bm", "extinst", "list", "dict", "set", "tuple", "float"):
+        return False
+    return None
+
+
+def ref_stableid(ctx: Ctx) -> RuleResult:
+    """Node ids are built from text only: every value interpolated into an id is a str or an int, never an object (whose
+    text would be its repr, memory address included: the id differs between processes and between two builds of one DAG)."""
+    r = RuleResult("REF-STABLEID")
+    sites: List[Tuple[FuncInfo, ast.JoinedStr, str]] = []
+    for f in ctx.funcs():
+        if f.module.name.endswith("_twzsa_control"):
+            continue
+        ret_id = f.node.returns is not None and norm_src(f.node.returns) in ("Identifier", "'Identifier'")
+        for n in iter_own_nodes(f.node):
+            if isinstance(n, ast.Call):
+                for k in n.keywords:
+                    if k.arg == "id_" and isinstance(k.value, ast.JoinedStr):
+                        sites.append((f, k.value, "id_= of " + norm_src(n.func)))
+            elif isinstance(n, ast.Return) and ret_id and isinstance(n.value, ast.JoinedStr):
+                sites.append((f, n.value, "returned Identifier"))
+    r.require(len(sites) >= 3, f"only {len(sites)} id-building f-strings found")
+    for f, js, where in sites:
+        for v in js.values:
+            if not isinstance(v, ast.FormattedValue):
+                continue
+            e = v.value
+            if isinstance(e, ast.Attribute) and e.attr in ("__qualname__", "__name__", "id", "qualname"):
+                st: Optional[bool] = True
+                t: tuple = ("str",)
+            else:
+                t = ctx.type_of(f, e)
+                st = _stable_type(t)
+                if st is None and isinstance(e, ast.Name):
+                    a = f.node.args
+                    ann = next((p.annotation for p in a.posonlyargs + a.args + a.kwonlyargs if p.arg == e.id), None)
+                    if ann is not None and "Callable" in norm_src(ann):
+                        st = False
+            r.ob(st is True, {"id built in": f.short, "where": where, "interpolates": norm_src(e), "type": str(t[0])})
+            if st is False:
+                r.violate(f"{f.short}: node id interpolates the object '{norm_src(e)}' ({t[0]})", f.loc(js),
+                          "the text of an object is its repr (memory address included): the id changes from one process to the next "
+                          "and between two builds of the same DAG, so a cache file written by one run names nodes the next run does not have",
+                          norm_src(js))
+            elif st is None:
+                raise Undecided(f"{f.short}: cannot type '{norm_src(e)}' interpolated into a node id")
+    return r
+
+
 RULES = {
+    "REF-STABLEID": ref_stableid,
     "REF-DEREF": ref_deref, "REF-KEY": ref_key, "REF-FIELDS": ref_fields, "REF-ASDICT": ref_asdict, "REF-MAT": ref_mat,
     "REF-SHAPE": ref_shape, "REF-OPS": ref_ops, "REF-NI": ref_ni, "REF-ACTIVE-BUILD": ref_active_build,
     "REF-FLAGPRED": ref_flagpred, "REF-UNIQ": ref_uniq, "REF-PREFIX": ref_prefix, "REF-SEED": ref_seed, "REF-GETITEM": ref_getitem, "REF-RESERVED": ref_reserved, "REF-TRACE": ref_trace, "REF-REWIRE": ref_rewire, "VAL-GENREUSE": val_genreuse,
